@@ -51,10 +51,10 @@ type Effect struct {
 	Blocking bool
 	Arm      int // chosen arm, -1 = default
 	// store
-	Addr *Term
-	Val  *Term
-	Mode string // for go/defer: "call"|"invoke"|"dyncall"|"builtin"
-	Depth int   // inlining depth at which the effect occurred
+	Addr  *Term
+	Val   *Term
+	Mode  string // for go/defer: "call"|"invoke"|"dyncall"|"builtin"
+	Depth int    // inlining depth at which the effect occurred
 }
 
 func (e *Effect) String() string {
@@ -234,13 +234,13 @@ var pureInvoke = map[string]string{
 
 // static callees that are pure functions of their arguments.
 var pureStatic = map[string]string{
-	"strconv.Atoi":    "pure",
-	"NewEvent":        "same-package constructor (checked by rule event-ctor)",
-	"nsname:New":      "constructor",
-	"nsname:ForObject": "constructor from accessors",
-	"filter:FiltersEqual": "pure given pure Equals (C17)",
-	"listResourceVersion": "same-package pure helper over meta.ListAccessor (shape checked by C14)",
-	"extractList":         "same-package pure helper over meta.ExtractList (shape checked by C14)",
+	"strconv.Atoi":                    "pure",
+	"NewEvent":                        "same-package constructor (checked by rule event-ctor)",
+	"nsname:New":                      "constructor",
+	"nsname:ForObject":                "constructor from accessors",
+	"filter:FiltersEqual":             "pure given pure Equals (C17)",
+	"listResourceVersion":             "same-package pure helper over meta.ListAccessor (shape checked by C14)",
+	"extractList":                     "same-package pure helper over meta.ExtractList (shape checked by C14)",
 	"github.com/pkg/errors.Wrap":      "wraps its argument",
 	"github.com/pkg/errors.WithStack": "wraps its argument",
 }
